@@ -121,6 +121,32 @@ def stat_oracle(kind, T, seed, n_steps=6000):
                  "observed_variance": v.tolist()}
 
 
+def ensemble_support_oracle(alpha):
+    """Property-level probe of the real EnsembleSampler: the stretch factor z is drawn from
+    g(z) ~ z^(-1/2) on [1/alpha, alpha], so a uniform draw -> 0 must give z -> 1/alpha and
+    a draw -> 1 must give z -> alpha (otherwise some proposals have no reverse move)."""
+    from inference.mcmc.ensemble import EnsembleSampler
+    from lib.scripted import ScriptedRNG, RecordingPosterior
+    bad = []
+    pos = np.array([[0.0, 0.0], [1.0, 2.0], [3.0, -1.0]])
+    for u, want, name in ((F(1, 2 ** 40), 1 / alpha, "1/alpha"), (1 - F(1, 2 ** 30), alpha, "alpha")):
+        post = RecordingPosterior(lambda x: F(0))
+        with warnings.catch_warnings():
+            warnings.simplefilter("ignore")
+            es = EnsembleSampler(posterior=post, starting_positions=pos.copy(), alpha=alpha, display_progress=False)
+        es.rng = ScriptedRNG(1, tape=[1, u, F(1, 2 ** 40)])
+        n0 = len(post.evals)
+        with S.quiet():
+            es.advance(1)
+        y = [float(v) for v in post.evals[n0][0]]
+        xi, xj = pos[0], pos[1]
+        z = (y[0] - xj[0]) / (xi[0] - xj[0])
+        if abs(z - want) > 1e-6 * want:
+            bad.append(f"alpha={alpha}: a uniform draw of {float(u)!r} gives stretch factor z={z!r}, "
+                       f"but the end of the support is {name}={want!r}")
+    return bad
+
+
 # ------------------------------------------------------------------ known finding D4
 def fold_preimages(x, lo, w, kmax):
     """All theta with reflect(theta) = x, |k| <= kmax (the fold characterisation
@@ -252,6 +278,42 @@ def run(rep: C.Report, tier: str) -> int:
                             "first_transition": {"tape": [str(t) for t in rc.tape],
                                                  "evaluations": [[[str(v) for v in p], str(q)] for p, q in rc.events]}})
 
+    # chains run under parallel tempering: real coordinator + real worker loop (in one
+    # process), exchanges accepted, then the next transitions of every chain are recorded
+    from lib import pt_inproc
+    from lib.scripted import ScriptedRNG
+    for kind in ("gibbs", "pca", "hmc"):
+        for _ in range(2 if tier == "quick" else 8):
+            cfg = SC.make_config(r, kind)
+            try:
+                with warnings.catch_warnings():
+                    warnings.simplefilter("ignore")
+                    group = [SC.build(dict(cfg, T=T, rng_seed=cfg["rng_seed"] + j))
+                             for j, T in enumerate([1.0, 2.0, 4.0])]
+                    prng = ScriptedRNG(cfg["rng_seed"] + 17)
+                    prng.uniform_hook = lambda: 2.0 ** -40
+                    pt = pt_inproc.make_pt([g[0] for g in group], prng, lambda seq: prng.choice(seq))
+                    for rounds in range(2):
+                        pt.take_steps(2)
+                        pt.swap()
+                        for j, (ch, post, rng, fn) in enumerate(group):
+                            c2 = dict(cfg, T=[1.0, 2.0, 4.0][j])
+                            if kind == "gibbs":
+                                recs = S.record_gibbs_like(ch, post, rng, 1, "gibbs")
+                            elif kind == "pca":
+                                recs = S.record_pca(ch, post, rng, 1)
+                            else:
+                                recs = S.record_hmc(ch, post, rng, 1)
+                            cfgs.append(c2)
+                            ts = SC.coq_terms(c2, recs)
+                            terms += ts
+                            owners += [(len(cfgs) - 1, 0)] * len(ts)
+                    rep.count("parallel_tempering_groups")
+                    rep.count("exchanges_accepted", int(pt.successful_swaps.sum()))
+                    rep.case(("pt", SC.describe(cfg)))
+            except Exception as e:
+                rep.violation("C01/exception", f"{kind} under parallel tempering: {e!r}", {"case": SC.describe(cfg)}, True)
+
     codes, broken = S.run_code_cases(PROP, "trace", terms)
     for b in broken:
         rep.obligation(False)
@@ -269,7 +331,16 @@ def run(rep: C.Report, tier: str) -> int:
         cfg = cfgs[ci]
         # failing-input search: long seeded runs of the real sampler
         found = False
-        for seed in (1, 2):
+        if kind == "ensemble":
+            try:
+                badz = ensemble_support_oracle(float(cfg["alpha"]))
+            except Exception as e:
+                badz = [f"stretch-support probe raised {e!r}"]
+            if badz:
+                found = True
+                rep.violation("C01/stretch-support/ensemble", "ensemble: " + "; ".join(badz),
+                              {"case": {"alpha": cfg["alpha"], "probe": "stretch factor at the ends of the uniform draw"}}, True)
+        for seed in (() if found else (1, 2)):
             try:
                 bad, info2 = stat_oracle(kind, cfg["T"] if kind != "ensemble" else 1.0, seed)
             except Exception as e:
